@@ -24,8 +24,10 @@
 #define C17_PFX(n) S_##n
 typedef struct S_pixman_glyph_cache_t S_pixman_glyph_cache_t;
 #include "c17_rename.h"
+#include "c17_autorename.h"      /* generated from the pixman-glyph.c under test: whatever else it defines at file scope */
 #include "pixman-glyph.c"
 #include "c17_unrename.h"
+#include "c17_autounrename.h"
 #if HASH_SIZE != 4 || N_GLYPHS_HIGH_WATER != 2 || N_GLYPHS_LOW_WATER != 1
 #error "the PIXMAN_VERIF size hook of pixman-glyph.c did not take effect"
 #endif
@@ -57,8 +59,10 @@ typedef struct S_pixman_glyph_cache_t S_pixman_glyph_cache_t;
 #define C17_PFX(n) M_##n
 typedef struct M_pixman_glyph_cache_t M_pixman_glyph_cache_t;
 #include "c17_rename.h"
+#include "c17_autorename.h"      /* generated from the pixman-glyph.c under test: whatever else it defines at file scope */
 #include "pixman-glyph.c"
 #include "c17_unrename.h"
+#include "c17_autounrename.h"
 #if HASH_SIZE != 8 || N_GLYPHS_HIGH_WATER != 4 || N_GLYPHS_LOW_WATER != 2
 #error "the PIXMAN_VERIF size hook of pixman-glyph.c did not take effect"
 #endif
